@@ -173,6 +173,9 @@ class P:
                 idx = self.expr()
                 self.expect("]")
                 e = ("index", e, idx)
+            elif v == "?":
+                self.next()
+                e = ("try", e)
             else:
                 return e
 
@@ -325,7 +328,7 @@ def find_matching(src, i):
     raise Unsupported("unbalanced braces")
 
 
-def extract_items(src):
+def extract_items(src, trait_impls=()):
     """Returns (fns, structs, enums, consts). fns: list of dict(name, owner, params, ret, body_src)."""
     src = strip_comments(src)
     # drop test modules
@@ -373,7 +376,7 @@ def extract_items(src):
     consumed = []
     for m in re.finditer(r"\bimpl(?:<[^>]*>)?\s+(?:(\w+)(?:<[^>]*>)?\s+for\s+)?(\w+)(?:<[^>]*>)?\s*\{", src):
         end = find_matching(src, m.end() - 1)
-        if m.group(1) is None:
+        if m.group(1) is None or m.group(1) in trait_impls:
             scan_fns(src[m.end():end], m.group(2))
         consumed.append((m.start(), end))
     top = src
@@ -505,6 +508,10 @@ class Tr:
             t = self.ty(e[1])
             if t == "f64":
                 return "bool" if e[2] in ("is_nan", "is_finite") else "f64"
+            if e[2] == "ok_or":
+                return t
+            if vdim(t) and e[2] == "try_normalize":
+                return "Option<Vector%d>" % vdim(t)
             if vdim(t):
                 if e[2] in ("dot", "norm", "norm_squared", "magnitude"):
                     return "f64"
@@ -536,6 +543,10 @@ class Tr:
             return "?"
         if k == "struct":
             return self.norm_ty(e[1][-1])
+        if k == "try":
+            t = self.ty(e[1])
+            m = re.fullmatch(r"(?:Option|Result)<(.+)>", t or "")
+            return m.group(1) if m else "?"
         if k == "if":
             return self.ty_block(e[2])
         if k == "match":
@@ -665,7 +676,11 @@ class Tr:
                 if name == "is_finite":
                     return "(nfinite %s)" % R
                 raise Unsupported("f64 method " + name)
+            if name == "ok_or" and len(args) == 1:
+                return R                       # Option -> Result with a message: the model keeps the option
             d = vdim(t)
+            if d == 3 and name == "try_normalize" and len(args) == 1:
+                return "(try_normalize3_min %s %s)" % (R, self.ex(args[0]))
             if d:
                 if name == "dot" and len(args) == 1:
                     return "(dot%d %s %s)" % (d, R, self.ex(args[0]))
@@ -702,6 +717,8 @@ class Tr:
                     return self.ex(args[0])
                 if p[1] == "new_normalize" and len(args) == 1:
                     return "(normalize%d %s)" % (d, self.ex(args[0]))
+            if len(p) == 1 and p[0] in getattr(self.c, "call_map", {}):
+                return self.c.call_map[p[0]].format(*[self.ex(a) for a in args])
             if p == ["Iso2", "rotation"] and len(args) == 1:
                 return self.ex(args[0])
             if len(p) == 2 and p[0] == "f64":
@@ -794,6 +811,11 @@ class Tr:
             return self.stmts(rest)
         if k == "assert":
             raise Unsupported("assert! not at function head")
+        if k == "let" and st[2][0] == "try":
+            # let x = E?;  in a function returning Option / Result: bind, None on failure
+            v = self.ex(st[2][1])
+            self.vars[st[1]] = self.norm_ty(st[3]) if st[3] else self.ty(st[2])
+            return "(match %s with Some %s => %s | None => None end)" % (v, self.var(st[1]), self.stmts(rest))
         if k == "let":
             v = self.ex(st[2])
             self.vars[st[1]] = self.norm_ty(st[3]) if st[3] else self.ty(st[2])
@@ -868,6 +890,8 @@ class Tr:
     # ---- function
     def coq_ty(self, t):
         t = self.norm_ty(t)
+        if t in getattr(self.c, "type_map", {}):
+            return self.c.type_map[t]
         if t == "f64":
             return "num"
         if t == "bool":
@@ -939,11 +963,11 @@ def split_top(s):
     return out
 
 
-def translate_file(path, module, wanted, types_import, extra_structs=None, extra_enums=None):
+def translate_file(path, module, wanted, types_import, extra_structs=None, extra_enums=None, call_map=None, type_map=None, trait_impls=()):
     """Translate the wanted functions of a Rust file.
     Returns (coq_text, results) where results = {coq_name: None | error string}."""
     src = open(path).read()
-    fns, structs, enums, consts = extract_items(src)
+    fns, structs, enums, consts = extract_items(src.replace("\r\n", "\n"), trait_impls)
     own_structs, own_enums = dict(structs), dict(enums)
     if extra_structs:
         structs.update(extra_structs)
@@ -953,6 +977,8 @@ def translate_file(path, module, wanted, types_import, extra_structs=None, extra
     for f in fns:
         fn_index[(f["owner"], f["name"])] = (coq_fn_name(f["owner"], f["name"]), f["ret"])
     ctx = Ctx(module, structs, enums, consts, fn_index, None)
+    ctx.call_map = call_map or {}
+    ctx.type_map = type_map or {}
     out_defs = {}
     deps = {}
     results = {}
